@@ -8,6 +8,7 @@ the semantics of DESIGN.md appendix A (`Rooc/Proofs/Cert.lean`).
 -/
 import Rooc.Proofs.Cert
 import Rooc.Proofs.ComposeSimplexExamples
+import Rooc.Proofs.ComposeSemExamples
 import Rooc.Proofs.RatInst
 import Mathlib.Data.Rat.Floor
 namespace Rooc.Props.C05
@@ -282,6 +283,41 @@ theorem slow_simplex_direct_start_partial {tol : K} (ht : 0 < tol) {lm : LinMode
     ∃ T, intoTableau tol stallExtra phase1Limit (stdK s) = .ok T ∧ CanonicalFor T (stdK s) :=
   direct_start_canonicalFor ht hW hs stallExtra phase1Limit hN hdir
 
+/-! ### the built-in simplex honours the solver contract that C03's composition assumes
+
+`Rooc/Proofs/ComposeSem.lean` relates the two readings of a linear model: by NAME (`Sem.linFeasible`,
+`Sem.linObjective`: C01/C02/C03) and POSITIONAL (`StdSem.LinFeasible`, `StdSem.obj`: C13).  They coincide along
+`x = lm.vars.map ρ` when the variable names are distinct, the domain declares exactly them (`ComposeSem.DomVars`) and
+`NonNegativeReal(lo, _)` has `0 ≤ lo` (`LinP.NNOK`; otherwise the standardizer's `x ≥ 0` and the by-name domain
+disagree — DESIGN.md appendix A).  `ComposeSem.pointOf vars x` is the assignment `varsᵢ ↦ xᵢ`. -/
+
+/-- **`Finished` at exact arithmetic ⇒ `Compose.LinOptimal`**, with `optimal_value` as the linear objective
+(offset included) at the returned point. -/
+theorem slow_simplex_linOptimal_exact {lm : LinModel (Ext K)} (hW : WF lm) (hnn : ∀ d ∈ lm.domain, LinP.NNOK d.ty)
+    (hdv : ComposeSem.DomVars lm) (hnd : lm.vars.Nodup) {s : StdModel (Ext K)} (hs : standardize lm = .ok s)
+    {T : Tab K} (hT : CanonicalFor T (stdK s)) (stallExtra limit : Nat) (prefer : List Nat)
+    (hfin : (solve (0:K) stallExtra limit prefer T).result = .ok ()) :
+    Compose.LinOptimal lm
+      (ComposeSem.pointOf lm.vars (preimage lm (basicSolution (solve (0:K) stallExtra limit prefer T).final))) ∧
+    Sem.linObjective lm
+      (ComposeSem.pointOf lm.vars (preimage lm (basicSolution (solve (0:K) stallExtra limit prefer T).final))) =
+      some (optimalValue (solve (0:K) stallExtra limit prefer T).final) :=
+  ComposeSem.simplex_linOptimal hW hnn hdv hnd hs hT stallExtra limit prefer hfin
+
+/-- **`Unbounded` at exact arithmetic ⇒ `Compose.LinUnbounded`.** -/
+theorem slow_simplex_linUnbounded_exact {lm : LinModel (Ext K)} (hW : WF lm) (hnn : ∀ d ∈ lm.domain, LinP.NNOK d.ty)
+    (hdv : ComposeSem.DomVars lm) (hnd : lm.vars.Nodup) {s : StdModel (Ext K)} (hs : standardize lm = .ok s)
+    {T : Tab K} (hT : CanonicalFor T (stdK s)) (stallExtra limit : Nat) (prefer : List Nat)
+    (hunb : (solve (0:K) stallExtra limit prefer T).result = .error .unbounded) : Compose.LinUnbounded lm :=
+  ComposeSem.simplex_linUnbounded hW hnn hdv hnd hs hT stallExtra limit prefer hunb
+
+/-- the adapter itself: by-name feasibility / objective = positional feasibility / objective. -/
+theorem linFeasible_iff_positional {lm : LinModel (Ext K)} (hW : WF lm) (hnn : ∀ d ∈ lm.domain, LinP.NNOK d.ty)
+    (hdv : ComposeSem.DomVars lm) (ρ : String → K) :
+    (Sem.linFeasible lm ρ = true ↔ LinFeasible lm (lm.vars.map ρ)) ∧
+    Sem.linObjective lm ρ = some (obj lm (lm.vars.map ρ)) :=
+  ⟨ComposeSem.linFeasible_iff lm hW hnn hdv ρ, ComposeSem.linObjective_eq lm hW ρ⟩
+
 /-! ### non-vacuity (`K = ℚ`): `min −x s.t. x ≤ 2, x ≥ 0` is solved, `min −x s.t. −x ≤ 2, x ≥ 0` is unbounded -/
 section examples
 attribute [local instance 2000] fieldExact
@@ -320,6 +356,15 @@ example : Start.NoSubTol (1/100000 : ℚ) ((stdK exMinStd).rows.map (·.coeffs))
       (independentColumns (1/100000 : ℚ) (stdK exMinStd).vars.length ((stdK exMinStd).rows.map (·.coeffs)))).length
         = (stdK exMinStd).rows.length :=
   exMin_direct_hyps
+
+/-- `slow_simplex_linOptimal_exact` applies to `max x s.t. x ≤ 2, x ≥ 0` (sign flip recorded): the by-name point
+`x ↦ 2` satisfies the solver contract, with linear objective 2. -/
+example : Compose.LinOptimal ComposeSem.exMax (ComposeSem.pointOf ["x"] [2]) ∧
+    Sem.linObjective ComposeSem.exMax (ComposeSem.pointOf ["x"] [2]) = some 2 := by
+  have h := slow_simplex_linOptimal_exact ComposeSem.exMax_wf ComposeSem.exMax_nnok ComposeSem.exMax_domVars
+    ComposeSem.exMax_nodup ComposeSem.exMax_std ComposeSem.exTM_canonicalFor 1 10 [] ComposeSem.exTM_solve.1
+  rw [ComposeSem.exTM_solve.2, ComposeSem.exTM'_preimage, ComposeSem.exTM'_value] at h
+  exact h
 
 end examples
 end SlowSimplex
